@@ -8,7 +8,7 @@ import re
 from ..cfg import build_cfg, calls_in, node_calls
 from ..core import Ctx, property_info, rule, share
 from ..model import AnalysisError, FuncInfo, const_str, walk_no_nested
-from ..q import Dispatch, L, call_name_of, control_deps, dep_texts, expand, dict_literals, flow_conditions, flows, A, asrc, enum_members, is_self_attr, kwarg, stores, unparse
+from ..q import Dispatch, L, call_name_of, control_deps, dep_texts, expand, raw_forms, dict_literals, flow_conditions, flows, A, asrc, enum_members, is_self_attr, kwarg, stores, unparse
 from .c12 import renumbering_is_last
 
 FIL = "xsdata.formats.dataclass.filters:Filters"
@@ -223,9 +223,9 @@ def pipeline_typestate(ctx: Ctx) -> None:
     ctx.ob("container.find_inner does the same for inner classes", bool(pcs) and all(dep_texts(ci, n, True) & set(behind) for n in pcs), at=ci, construct="find_inner processes", msg="inner classes returned unprocessed")
     pc = ctx.repo.func("xsdata.codegen.container:ClassContainer.process_class")
     g = build_cfg(pc.node)
-    status_stores = [(g.node_of(st), A(unparse(v))) for st, tgt, v in stores(pc.node) if isinstance(tgt, ast.Attribute) and tgt.attr == "status" and v is not None]
-    start = [n for n, v in status_stores if n is not None and v == A("Status(step)")]
-    done = [n for n, v in status_stores if n is not None and v in (A("Status(step + 1)"), A("Status(1 + step)"))]
+    status_stores = [(g.node_of(st), {A(x) for x in raw_forms(pc, st, v)}) for st, tgt, v in stores(pc.node) if isinstance(tgt, ast.Attribute) and tgt.attr == "status" and v is not None]
+    start = [n for n, v in status_stores if n is not None and A("Status(step)") in v]
+    done = [n for n, v in status_stores if n is not None and v & {A("Status(step + 1)"), A("Status(1 + step)")}]
     procs = [n for n in g.stmts() if any(isinstance(c.func, ast.Attribute) and c.func.attr == "process" for c in node_calls(n))]
     inner = [n for n in g.stmts() if any(unparse(c.func) == "self.process_class" for c in node_calls(n))]
     uses_table = any(isinstance(c.func, ast.Attribute) and c.func.attr == "get" and unparse(c.func.value) == "self.processors" and c.args and unparse(c.args[0]) == "step" for c in calls_in(pc.node)) or any(
@@ -240,9 +240,19 @@ def pipeline_typestate(ctx: Ctx) -> None:
     exported = [e.value for e in allv.elts] if isinstance(allv, (ast.List, ast.Tuple)) else []
     cm = ctx.repo.module("xsdata.codegen.container")
     counts = {}
+    # a handler is "instantiated" where its class is referenced in the container module: called directly, or listed in a collection of
+    # classes that is instantiated in a loop / comprehension.  Copies that the helper-inlining view put into callers are not counted twice.
     for node in ast.walk(cm.tree):
-        if isinstance(node, ast.Call) and isinstance(node.func, ast.Name) and node.func.id in exported:
-            counts[node.func.id] = counts.get(node.func.id, 0) + 1
+        if hasattr(node, "_xsa_origin"):
+            continue
+        refs = []
+        if isinstance(node, ast.Call) and isinstance(node.func, ast.Name):
+            refs = [node.func]
+        elif isinstance(node, (ast.Tuple, ast.List)) and isinstance(node.ctx, ast.Load):
+            refs = [e for e in node.elts if isinstance(e, ast.Name)]
+        for r in refs:
+            if r.id in exported:
+                counts[r.id] = counts.get(r.id, 0) + 1
     ctx.floor("exported handlers", len(exported), 24)
     for h in exported:
         ctx.ob(f"handler {h} is instantiated exactly once by the container", counts.get(h) == 1, at=cm, construct=f"handler {h}", msg=f"instantiated {counts.get(h, 0)} times: a processing step is skipped or repeated")
